@@ -395,6 +395,28 @@ fn spec_r(t: &HashMap<(u16, u16), f32>, a: usize, b: usize, to_env: f32, to_robo
 /// C10 clause=tasks: pair=i,j  table=k1,k2,v,...  [given=... for near()] to_env to_robot tool base nenv : the coinciding pair must be reported iff not exempt
 pub fn c10(c: &Case) {
     let clause = c.s("clause"); let mut bad: Vec<String> = Vec::new();
+    if clause == "entry" {
+        // collides / collision_details / near on a coinciding pair: the MODE that counts is the one of the table in use (the body's own, or the one passed to near())
+        let mut n = 0;
+        for (body_mode, given_mode) in [(CheckMode::NoCheck, CheckMode::AllCollsions), (CheckMode::NoCheck, CheckMode::FirstCollisionOnly), (CheckMode::AllCollsions, CheckMode::NoCheck),
+                                        (CheckMode::AllCollsions, CheckMode::AllCollsions), (CheckMode::FirstCollisionOnly, CheckMode::AllCollsions)] {
+            for pair in [(0usize, 2usize), (1, ENV_START_IDX), (J_TOOL, ENV_START_IDX)] {
+                n += 1;
+                let body_checks = body_mode != CheckMode::NoCheck; let given_checks = given_mode != CheckMode::NoCheck;
+                let (body, kin) = cube_world(true, true, 1, pair, HashMap::new(), 0.0, 0.0, body_mode);
+                let q = [0.0; 6];
+                let given = SafetyDistances { to_environment: 0.0, to_robot_default: 0.0, special_distances: HashMap::new(), mode: given_mode };
+                let got = body.near(&q, &kin, &given);
+                let has = got.iter().any(|p| p.0 == pair.0.min(pair.1) && p.1 == pair.0.max(pair.1));
+                if has != given_checks { bad.push(format!("near(): bodies {:?} coincide, body built with mode {:?}, table passed to near() has mode {:?}: reported={} (the passed table decides)", pair, body_mode, given_mode, has)); }
+                let det = body.collision_details(&q, &kin);
+                let hasd = det.iter().any(|p| p.0 == pair.0.min(pair.1) && p.1 == pair.0.max(pair.1));
+                if hasd != body_checks { bad.push(format!("collision_details(): bodies {:?} coincide, body mode {:?}: reported={}", pair, body_mode, hasd)); }
+                if body.collides(&q, &kin) != body_checks { bad.push(format!("collides(): bodies {:?} coincide, body mode {:?}: answer {}", pair, body_mode, !body_checks)); }
+            }
+        }
+        println!("native_cases={}", n); bad.dedup(); for b in bad.iter().take(5) { println!("diff={}", b); } println!("reproduced={}", !bad.is_empty()); return;
+    }
     if clause != "tasks" { println!("note=clause {} has no native replay (oracle-level obligation)", clause); println!("reproduced=false"); return; }
     let (tool, base, nenv) = (c.fo("tool", 1.0) != 0.0, c.fo("base", 1.0) != 0.0, c.fo("nenv", 1.0) as usize);
     let pv = c.vo("pair"); let own = c.fo("own_table", 1.0) != 0.0;
@@ -470,6 +492,27 @@ pub fn c14(c: &Case) {
             for w in &want { if !got.iter().any(|g| g == w) { bad.push(format!("free and legal candidate {:?} withheld (tool={}, base={}, env={})", w, tool, base, nenv)); } }
             for g in &got { if !want.iter().any(|w| w == g) { bad.push(format!("candidate {:?} offered although the full check reports a collision (tool={}, base={}, env={})", g, tool, base, nenv)); } }
         } }
+    }
+    // limit layouts: the legality of a candidate is what Constraints::compliant says about the WHOLE candidate vector (wrap-around ranges, unconstrained joints, turns, other joints)
+    {
+        let mut lo = [-100.0; 6]; let mut hi = [100.0; 6];
+        let mut variants: Vec<(Constraints, Joints, &str)> = Vec::new();
+        lo[0] = 5.2; hi[0] = 1.0; variants.push((Constraints::new(lo, hi, 0.0), [0.0; 6], "wrap-around range on joint 0"));
+        lo = [-1.0; 6]; hi = [1.0; 6]; lo[2] = 0.7; hi[2] = 0.7; variants.push((Constraints::new(lo, hi, 0.0), [0.0; 6], "joint 2 unconstrained (from == to)"));
+        lo = [-1.0; 6]; hi = [1.0; 6]; variants.push((Constraints::new(lo, hi, 0.0), [0.0, 0.0, 0.0, 2.0, 0.0, 0.0], "initial outside the limits in joint 3"));
+        lo = [-1.0; 6]; hi = [1.0; 6]; variants.push((Constraints::new(lo, hi, 0.0), [0.0; 6], "plain limits, targets beyond them"));
+        for (cons, initial, what) in variants {
+            let kin = Telescopic { cons: Some(cons) };
+            let body = RobotBody { joint_meshes: [cube(0.5), cube(0.5), cube(0.5), cube(0.5), cube(0.5), cube(0.5)], tool: None, base: None, collision_environment: vec![], safety: SafetyDistances::standard(CheckMode::FirstCollisionOnly) };
+            for (dn, up) in [(-0.3, 0.4), (-1.5, 0.5), (-0.3 + 2.0 * std::f64::consts::PI, 0.4), (-0.9, 1.3)] {
+                let from = [dn; 6]; let to = [up; 6]; tried += 1;
+                let got = body.non_colliding_offsets(&initial, &from, &to, &kin);
+                let mut want: Vec<Joints> = Vec::new();
+                for j in 0..6 { for t in [&from, &to] { let mut q = initial; q[j] = t[j]; if kin.cons.as_ref().unwrap().compliant(&q) && !body.collides(&q, &kin) { want.push(q); } } }
+                for w in &want { if !got.iter().any(|g| g == w) { bad.push(format!("free and legal candidate {:?} withheld ({})", w, what)); } }
+                for g in &got { if !want.iter().any(|w| w == g) { bad.push(format!("candidate {:?} offered although it is outside the limits or colliding ({})", g, what)); } }
+            }
+        }
     }
     println!("native_cases={}", tried); bad.dedup(); for b in bad.iter().take(5) { println!("diff={}", b); } println!("reproduced={}", !bad.is_empty());
 }
@@ -655,6 +698,11 @@ pub fn c19(c: &Case) {
         // round trips of the library's own output
         for (b, dof, sg5) in [(0.0, 6i8, -1i8), (0.05, 5, 0), (-2.0, 6, 1)] {
             let p = P19 { a1: 1.0, a2: -0.11, b, c1: 0.55, c2: 2.0, c3: 0.66, c4: 0.0, offsets: [0.0, 0.1, (-90.0f64).to_radians(), 0.0, 0.0, 180.0f64.to_radians()], sign_corrections: [1, -1, 1, -1, 1, sg5], dof };
+            docs.push((p.to_yaml(), Some(p)));
+        }
+        // small calibration offsets: whatever is written must read back within the printed precision (4 decimals of a degree = 8.7e-7 rad; the comparison below allows 1e-6)
+        for small in [1.0e-5f64, -4.0e-5, 0.0025f64.to_radians(), -0.001f64.to_radians(), 3.0e-6] {
+            let p = P19 { a1: 1.0, a2: -0.11, b: 0.0, c1: 0.55, c2: 2.0, c3: 0.66, c4: 0.1, offsets: [0.0, small, 0.5, -small, 0.0, 2.0 * small], sign_corrections: [1, 1, -1, 1, 1, 1], dof: 6 };
             docs.push((p.to_yaml(), Some(p)));
         }
     }
